@@ -56,9 +56,12 @@ def ACOTH(number):
     number = utils.parse_number(number)
     if isinstance(number, error.XLError):
         return number
-    # atanh(1/x): 0.5*log((x+1)/(x-1)) loses its digits as the quotient approaches 1
-    # (ACOTH(1e10) was 8e-8 off, and 0 from 1e16 on)
-    return math.atanh(1 / number)
+    # 0.5*log((x+1)/(x-1)) loses its digits as the quotient approaches 1 (ACOTH(1e10) was 8e-8
+    # off, and 0 from 1e16 on), atanh(1/x) loses them next to +-1, where 1/x is rounded;
+    # |x|-1 is exact there, and 2/(|x|-1) is small for large |x|
+    if abs(number) <= 1:
+        return math.atanh(1 / number)  # outside the domain: the error atanh raises (or ZeroDivisionError)
+    return math.copysign(0.5 * math.log1p(2 / (abs(number) - 1)), number)
 
 
 @dispatcher.register_for('SIN')
